@@ -776,6 +776,63 @@ func (e *env) genEnc(rng *gen.Rng) {
 	}
 }
 
+// genLong: strings longer than the parser's default bufio buffer (4096 bytes). The ansi parser joins a grapheme cluster only from
+// what its reader has buffered, so a multi-rune grapheme whose first rune ended exactly at a buffer boundary came back from
+// ParseStyledString as two cells (F122, fixed: ParseStyledString buffers the whole string). For every buffer boundary, every
+// multi-rune grapheme and every rune boundary inside it: a cell list whose encoding puts that rune boundary on the buffer boundary
+// (and one byte before / after it); filler cells carry long single-cluster graphemes so that the op lines stay short.
+func (e *env) genLong() {
+	r := e.r
+	filler := func(bytes int) []vaxis.Cell { // cells without style whose graphemes encode to exactly `bytes` bytes
+		var out []vaxis.Cell
+		for bytes > 0 {
+			n := bytes
+			if n > 273 {
+				n = 273
+			}
+			if n%2 == 0 { // "a" + k combining acutes has odd length
+				n--
+			}
+			out = append(out, withG("a"+strings.Repeat("\u0301", (n-1)/2), vaxis.Style{}))
+			bytes -= n
+		}
+		return out
+	}
+	multi := []string{"e\u0301", "\U0001F469\u200d\U0001F680", "\U0001F1E9\U0001F1EA", "o\u0302\u0323"}
+	bounds := []int{4096, 8192}
+	if r.Thorough {
+		bounds = append(bounds, 12288, 16384)
+	}
+	for _, b := range bounds {
+		for _, g := range multi {
+			off := 0
+			for i, rn := range g {
+				_ = rn
+				if i == 0 {
+					continue
+				}
+				off = i // byte offset of a later rune of g
+				for _, d := range []int{-1, 0, 1} {
+					head := []vaxis.Cell{withG("x", vaxis.Style{Attribute: vaxis.AttrBold, Foreground: vaxis.IndexColor(200)}), withG("y", vaxis.Style{})}
+					hl := len(vaxis.EncodeCells(head))
+					cells := append(head, filler(b-off+d-hl)...)
+					cells = append(cells, withG(g, vaxis.Style{}), withG("z", vaxis.Style{Background: vaxis.RGBColor(1, 2, 3)}))
+					var cs []string
+					for _, c := range cells {
+						cs = append(cs, cellStr(c))
+					}
+					e.emit("rt cells " + strings.Join(cs, " "))
+					e.emit("rt ss " + strings.Join(cs, " "))
+					str := vaxis.EncodeCells(cells)
+					e.decb("cells", vaxis.Style{}, str)
+					e.decb("ss", vaxis.Style{}, str)
+					r.Count(fmt.Sprintf("long:boundary-%d:d%+d", b, d))
+				}
+			}
+		}
+	}
+}
+
 func (e *env) genRt(rng *gen.Rng) {
 	r := e.r
 	n := 6000
@@ -1143,5 +1200,6 @@ func run(r *hx.Run) error {
 	e.genEnc(rng.Fork(1))
 	e.genRt(rng.Fork(2))
 	e.genDec(rng.Fork(3))
+	e.genLong()
 	return nil
 }
